@@ -97,6 +97,11 @@ Theorem top_level_progress : forall cfg toks src_len nt (g : nt -> prog nt) disp
 Proof. exact MachineProofs.top_level_progress. Qed.
 Print Assumptions top_level_progress.
 
+(* the parser's fuel (regenerated from ParserImpl::from) is at least the reviewed budget *)
+Theorem parser_fuel_budget : (100000000 <=? parser_fuel)%N = true.
+Proof. exact MachineExamples.parser_fuel_budget. Qed.
+Print Assumptions parser_fuel_budget.
+
 (* ---- the tokenizer wrapper (parser/src/tokenizer/mod.rs) over abstract lexers ---- *)
 From YV Require Import Parser.Tokenizer Parser.TokenizerProofs Parser.TokenizerInst Gen.TokenizerGen.
 
